@@ -482,6 +482,7 @@ func (idx *MergeSetIndex) putIndexSearch(is *indexSearch) {
 	is.mp.Reset()
 	is.vrp.Reset()
 	is.idx = nil
+	is.deleted = nil
 	is.tfs = is.tfs[:0]
 	indexSearchPool.Put(is)
 }
@@ -1676,6 +1677,8 @@ func (idx *MergeSetIndex) WriteDeleteTsids(tsids []uint64) error {
 		newDeleted := curDeleted.Clone()
 		newDeleted.AddMulti(tsids)
 		idx.deletedTSIDs.Store(newDeleted)
+		// answers cached by the tag-filter cache may contain the tsids deleted just now
+		invalidateTagCache()
 	} else {
 		return errors.New("curDeleted must be *uint64set.Set")
 	}
